@@ -71,9 +71,9 @@ def cmp(x,y):
             return c
         else:
             return cmparr(xv, yv)
-    xnan = isinstance(x, float) and x != x
-    ynan = isinstance(y, float) and y != y
-    if xnan or ynan: # nan is equal to nan and above every other float; +/-inf keep their native order
+    xnan = isinstance(x, (float, datetime.datetime)) and x != x
+    ynan = isinstance(y, (float, datetime.datetime)) and y != y
+    if xnan or ynan: # nan is equal to nan and above every other float (pd.NaT, which is a datetime: above every other datetime); +/-inf keep their native order
         return 0 if (xnan and ynan) else 1 if xnan else -1
     if is_iterable(x):
         return cmparr(x,y)
@@ -113,10 +113,10 @@ class Cmp(object):
 vcmp = np.vectorize(Cmp)
 
 def _has_nan(value):
-    """does value, or any member of a list/tuple value, hold a nan? native ordering is not total then"""
+    """does value, or any member of a list/tuple value, hold a nan or a NaT? native ordering is not total then"""
     if isinstance(value, (list, tuple)):
         return any(_has_nan(v) for v in value)
-    return isinstance(value, (float, np.floating)) and value != value
+    return isinstance(value, (float, np.floating, datetime.datetime, np.datetime64)) and value != value
 
 def _has_str_subclass(value):
     """does value, or any member of a list/tuple value, hold an instance of a subclass of str (np.str_)? cmp ranks it by its own type, python orders it with the strings"""
